@@ -439,6 +439,14 @@ func judgeC03(hi *Hist) []*Violation {
 			continue
 		}
 		fin := facts[g.Bar].Final
+		// what the program did decides how the bar ended (the calls on this bar did not overlap): a bar
+		// that was aborted shows as aborted, whatever was done to it afterwards
+		if bf := facts[g.Bar]; bf.Sequential && bf.Model.Terminal() && !relaxed {
+			if wantM := flagsOf(bf.Model.Completed, bf.Model.Aborted); g.Flags != wantM {
+				note("c03_final_state_model_checked")
+				add("final-state-model", "last frame shows bar %d as %s (%d/%d) but by the calls made on it the bar ended as %s", g.Bar, g.Flags, g.Cur, g.Tot, wantM)
+			}
+		}
 		want := flagsOf(fin.Completed, fin.Aborted)
 		if g.Flags != want {
 			add("final-state", "last frame shows bar %d as %s (%d/%d) but after Wait Completed()=%v Aborted()=%v", g.Bar, g.Flags, g.Cur, g.Tot, fin.Completed, fin.Aborted)
